@@ -29,7 +29,7 @@ ASSUMPTIONS = ["documented semantics of fit / partial_fit / use_base_clf / set_b
                "the wrapper's constructor requires a numeric missing_label compatible with y (NaN / float labels used)"]
 REQUIRED_MONITORS = ["C19.multiset-replay-checker", "C19.speed-up-equivalence"]
 CL = [0, 1, 2]
-KINDS = ["pwc", "pwc_knn", "pwc_speed", "pwc_speed_poly", "nb", "tree", "nb_pf", "sgd_pf", "mixture"]
+KINDS = ["pwc", "pwc_knn", "pwc_speed", "pwc_speed_poly", "pwc_speed_knn", "nb", "tree", "nb_pf", "sgd_pf", "mixture"]
 
 
 def _base(kind):
@@ -39,6 +39,8 @@ def _base(kind):
         return ParzenWindowClassifier(classes=CL, n_neighbors=3, metric_dict={"gamma": 0.5}, random_state=0)
     if kind == "pwc_speed":
         return ParzenWindowClassifier(classes=CL, metric_dict={"gamma": 0.7}, class_prior=0.1, random_state=0)
+    if kind == "pwc_speed_knn":     # neighbour limit + precomputed kernel: unlabelled training samples count as neighbours
+        return ParzenWindowClassifier(classes=CL, n_neighbors=2, metric_dict={"gamma": 0.6}, random_state=0)
     if kind == "pwc_speed_poly":
         return ParzenWindowClassifier(classes=CL, metric="laplacian", metric_dict={"gamma": 0.3}, random_state=0)
     if kind in ("nb", "nb_pf"):
